@@ -1,6 +1,6 @@
 //verif:package github.com/kstenerud/go-concise-encoding/internal/verifh/c03
 //verif:config cap=300 steps=400000000 paths=20000 timeout=120000 maxsec=1800
-//verif:bounds conversions through the real codecs (CBE decoder, CTE encoder, CTE decoder = ANTLR lexer/parser/listener executed by the engine, CBE encoder), each behind the real validator. CBE->CTE->CBE: CBE documents of 12 templates with an 8-bit symbolic payload (quick: boundary values) - integers, strings with a character of a 12-character set, typed arrays, nested containers, markers/references, records, nodes, edges, media, custom binary, UID, NaN, floats, times - and (thorough) raw CBE documents signature+version+1..2 symbolic bytes that the CBE decoder accepts. CTE->CBE: 8 CTE text templates (comments, all container kinds, typed arrays in the 3 bases, escapes, markers, records) with one symbolic digit or letter
+//verif:bounds conversions through the real codecs (CBE decoder, CTE encoder, CTE decoder = ANTLR lexer/parser/listener executed by the engine, CBE encoder), each behind the real validator. CBE->CTE->CBE: CBE documents of 13 templates with an 8-bit symbolic payload (quick: boundary values) - integers, strings with a character of a 12-character set, typed arrays, nested containers, markers/references, records, nodes, edges, media and custom binary whole and in two chunks, UID, NaN, floats, times - and (thorough) raw CBE documents signature+version+1..2 symbolic bytes that the CBE decoder accepts. CTE->CBE: 8 CTE text templates (comments, all container kinds, typed arrays in the 3 bases, escapes, markers, records) with one symbolic digit or letter
 //verif:assume every symbolic character reaches the lexer's table lookups, where the engine enumerates its feasible values (one path per value), so the bounds are small; custom text is excluded from CTE->CBE as the statement says; area/location time zones are not generated; "the same data": integers by value, arrays joined, padding and (towards CBE) comments dropped
 package c03
 
@@ -143,7 +143,7 @@ func encodeCBE(send func(r events.DataEventReceiver)) []byte {
 var chars = []string{"a", " ", "\"", "\\", "\n", "\t", "/", "*", "|", "@", "é", "€"}
 
 func Verif_C03_CBEDocuments() {
-	which := verifrt.Choice("template", 12)
+	which := verifrt.Choice("template", 13)
 	v := uint64(verifrt.U8("v"))
 	if !verifrt.Thorough() {
 		verifrt.Assume(v < 3 || v == 9 || v == 10 || v == 99 || v == 100 || v == 127 || v == 128 || v >= 254)
@@ -249,6 +249,19 @@ func Verif_C03_CBEDocuments() {
 			r.OnTime(compact_time.NewTime(23, 59, 7*k, 500000000*(k%2), compact_time.TZAtLatLong(1234-1300*k, -99*k)))
 			r.OnTime(compact_time.NewTimestamp(1999, 12, 31, 0, 0, k, 0, compact_time.TZAtUTC()))
 			r.OnTime(compact_time.NewTime(1, 2, 3, 0, compact_time.TZWithMiutesOffsetFromUTC(-90*k)))
+			r.OnEndContainer()
+		case 12: // media and custom binary delivered in two non-empty chunks
+			r.OnList()
+			r.OnMediaBegin("a/b")
+			r.OnArrayChunk(2, true)
+			r.OnArrayData([]byte{1, byte(v)})
+			r.OnArrayChunk(1, false)
+			r.OnArrayData([]byte{3})
+			r.OnCustomBegin(events.ArrayTypeCustomBinary, 5)
+			r.OnArrayChunk(1, true)
+			r.OnArrayData([]byte{byte(v)})
+			r.OnArrayChunk(2, false)
+			r.OnArrayData([]byte{0xb2, 0xc3})
 			r.OnEndContainer()
 		case 11:
 			r.OnMap()
